@@ -5,6 +5,7 @@ import (
 	"go/ast"
 	"go/token"
 	"go/types"
+	"os"
 	"strings"
 
 	"golang.org/x/tools/go/ssa"
@@ -88,11 +89,13 @@ func (t *FnTrans) run() (err error) {
 	// requires
 	env := t.selfEnv(t.entry, nil)
 	if t.ct != nil {
+		t.inRequires = true
 		for i, c := range t.ct.Requires {
 			f := env.evalBool(c.E)
 			t.assume(f)
 			_ = i
 		}
+		t.inRequires = false
 		for _, c := range t.ct.Assumes {
 			t.assume(env.evalBool(c.E))
 			t.abstr["assumed (unchecked) precondition: "+c.Text] = true
@@ -109,6 +112,15 @@ func (t *FnTrans) run() (err error) {
 		}
 	}
 
+	// lock state at entry: nothing held except what the contract requires
+	for c := range t.compSort {
+		if strings.HasPrefix(c, "L.") {
+			if e, ok := t.entry.H[c]; ok {
+				t.entryLockAxiom(c, e)
+			}
+		}
+	}
+	t.entryLocksDone = true
 	order := t.rpo()
 	t.reach[fn.Blocks[0]] = "true"
 	for _, b := range order {
@@ -316,6 +328,52 @@ func (t *FnTrans) term(v ssa.Value) string { return t.termOf(t.val(v), v) }
 
 // ---------- loops ----------
 
+// autoRangeInv: the bounds of the hidden counters of `for i := range slice` (rangeindex) and
+// `for i := range n` (rangeint.iter) loops, derived from the SSA pattern: returns the counter phi, its
+// lower bound and the SSA value it stays below.
+func (t *FnTrans) autoRangeInv(b *ssa.BasicBlock, l *loopInfo) (phi *ssa.Phi, lo string, hi ssa.Value) {
+	for _, in := range b.Instrs {
+		p, ok := in.(*ssa.Phi)
+		if !ok {
+			break
+		}
+		switch p.Comment {
+		case "rangeindex":
+			// header: t = phi+1 ; c = t < LEN
+			for _, in2 := range b.Instrs {
+				if bo, ok := in2.(*ssa.BinOp); ok && bo.Op == token.LSS {
+					if add, ok := bo.X.(*ssa.BinOp); ok && add.Op == token.ADD && add.X == p {
+						if !t.definedInLoop(bo.Y, l) {
+							return p, "(- 1)", bo.Y
+						}
+					}
+				}
+			}
+		case "rangeint.iter":
+			// rotated loop: the latch computes t = phi+1 ; c = t < N
+			for blk := range l.body {
+				for _, in2 := range blk.Instrs {
+					if bo, ok := in2.(*ssa.BinOp); ok && bo.Op == token.LSS {
+						if add, ok := bo.X.(*ssa.BinOp); ok && add.Op == token.ADD && add.X == p {
+							if !t.definedInLoop(bo.Y, l) {
+								return p, "0", bo.Y
+							}
+						}
+					}
+				}
+			}
+		}
+	}
+	return nil, "", nil
+}
+
+func (t *FnTrans) definedInLoop(v ssa.Value, l *loopInfo) bool {
+	if in, ok := v.(ssa.Instruction); ok && in.Block() != nil {
+		return l.body[in.Block()]
+	}
+	return false
+}
+
 func (t *FnTrans) loopHead(b *ssa.BasicBlock, l *loopInfo) {
 	// base: invariant holds on entry (phis bound to forward incoming values)
 	var invs []*Clause
@@ -359,6 +417,19 @@ func (t *FnTrans) loopHead(b *ssa.BasicBlock, l *loopInfo) {
 		fwd[phi] = Val{S: m}
 	}
 	pre := t.cur.clone()
+	aphi, alo, ahi := t.autoRangeInv(b, l)
+	if aphi != nil {
+		if _, ok := t.vals[ahi]; !ok {
+			if _, isC := ahi.(*ssa.Const); !isC {
+				aphi = nil
+			}
+		}
+	}
+	if aphi != nil {
+		f := fwd[aphi].S
+		t.obligeNamed(fmt.Sprintf("inv.%d.auto.base", l.ordinal), "inv.base", and(app("<=", alo, f), app("<", f, t.term(ahi))), "range counter stays within its bounds (derived from the loop's SSA form)")
+		t.autoInv[b] = [3]string{alo, t.term(ahi), ""}
+	}
 	for i, c := range invs {
 		env := t.loopEnv(b, t.cur, func(phi *ssa.Phi) Val { return fwd[phi] })
 		t.obligeNamed(fmt.Sprintf("inv.%d.%d.base", l.ordinal, i+1), "inv.base", env.evalBool(c.E), c.Text)
@@ -391,7 +462,7 @@ func (t *FnTrans) loopHead(b *ssa.BasicBlock, l *loopInfo) {
 	// pre-loop content everywhere else
 	if !l.all {
 		for c := range l.writes {
-			if l.viaBad[c] || len(l.via[c]) == 0 || c == "$alloc" {
+			if l.viaBad[c] || c == "$alloc" || (len(l.via[c])+len(l.viaExpr[c]) == 0 && os.Getenv("GOVC_NOEMPTY") != "") {
 				continue
 			}
 			s := t.compSort[c]
@@ -402,6 +473,23 @@ func (t *FnTrans) loopHead(b *ssa.BasicBlock, l *loopInfo) {
 			ok := true
 			for _, v := range l.via[c] {
 				val, has := t.vals[v]
+				if !has {
+					if u, isU := v.(*ssa.UnOp); isU {
+						// re-load of a field of a loop-invariant object; the field must not change in the loop
+						if fa, isFA := u.X.(*ssa.FieldAddr); isFA {
+							if comp, _, okc := t.staticFieldComp(fa); okc && !l.writes[comp] {
+								if xv, hasX := t.vals[fa.X]; hasX || isParamOrConst(fa.X) {
+									if !hasX {
+										xv = t.val(fa.X)
+									}
+									if xt := t.termOfOpt(xv); xt != "" {
+										val, has = Val{S: app("select", t.get(comp), xt)}, true
+									}
+								}
+							}
+						}
+					}
+				}
 				if !has {
 					if _, isC := v.(*ssa.Const); !isC {
 						if _, isP := v.(*ssa.Parameter); !isP {
@@ -421,6 +509,14 @@ func (t *FnTrans) loopHead(b *ssa.BasicBlock, l *loopInfo) {
 				}
 				conds = append(conds, not(eq("lf$r", term)))
 			}
+			for _, ve := range l.viaExpr[c] {
+				term, good := t.viaExprTerm(ve, l)
+				if !good {
+					ok = false
+					break
+				}
+				conds = append(conds, not(eq("lf$r", term)))
+			}
 			if !ok {
 				continue
 			}
@@ -428,6 +524,9 @@ func (t *FnTrans) loopHead(b *ssa.BasicBlock, l *loopInfo) {
 			if !has {
 				preTerm = t.entryVersion(c)
 			}
+			// objects allocated inside the loop are unconstrained; everything that existed before the loop and is
+			// not one of the written bases keeps its content
+			conds = append(conds, app("<", "lf$r", pre.H["$alloc"]))
 			t.assume(fmt.Sprintf("(forall ((lf$r Int)) (! %s :pattern ((select %s lf$r))))", implies(and(conds...), eq(app("select", t.cur.H[c], "lf$r"), app("select", preTerm, "lf$r"))), t.cur.H[c]))
 		}
 	}
@@ -443,6 +542,11 @@ func (t *FnTrans) loopHead(b *ssa.BasicBlock, l *loopInfo) {
 		t.assume(t.rangeFact(t.vals[phi].S, phi.Type()))
 	}
 	t.loopPre[b] = pre
+	if aphi != nil {
+		ai := t.autoInv[b]
+		t.assume(and(app("<=", ai[0], t.vals[aphi].S), app("<", t.vals[aphi].S, ai[1])))
+		t.autoPhi[b] = aphi
+	}
 	for _, c := range invs {
 		env := t.loopEnv(b, t.cur, nil)
 		env.old = t.entry
@@ -552,6 +656,11 @@ func (t *FnTrans) backEdge(from, head *ssa.BasicBlock) {
 		}
 		t.fail("back edge value not found")
 		return Val{}
+	}
+	if ap := t.autoPhi[head]; ap != nil {
+		ai := t.autoInv[head]
+		nv := ov(ap).S
+		t.obligeNamed(fmt.Sprintf("inv.%d.auto.step", l.ordinal), "inv.step", and(app("<=", ai[0], nv), app("<", nv, ai[1])), "range counter stays within its bounds (derived from the loop's SSA form)")
 	}
 	for i, c := range invs {
 		env := t.loopEnv(head, t.cur, ov)
@@ -840,6 +949,142 @@ func (t *FnTrans) instr(in ssa.Instruction) {
 func (t *FnTrans) isLocalAlloc(v ssa.Value) bool {
 	_, ok := v.(*ssa.Alloc)
 	return ok
+}
+
+// viaExprTerm evaluates, at the loop head, the location a callee writes to (a spec path expression
+// over the callee's parameters) when all arguments are loop-invariant and no field on the path is
+// written by the loop.
+func (t *FnTrans) viaExprTerm(ve viaExpr, l *loopInfo) (string, bool) {
+	env := &Env{t: t, vars: map[string]SVal{}, st: t.cur, pkg: ve.pkg, selfAlloc0: q("$alloc@0")}
+	for name, v := range ve.args {
+		var val Val
+		if in, isIn := v.(ssa.Instruction); isIn && in.Block() != nil && l.body[in.Block()] {
+			// defined in the loop: only a re-load of an unwritten field of a loop-invariant object is acceptable
+			term, good := t.reloadTerm(v, l)
+			if !good {
+				if ve.ptypes[name] == nil || !exprMentions(ve.e, name) {
+					continue // argument not used by the path expression
+				}
+				return "", false
+			}
+			val = Val{S: term}
+		} else {
+			var has bool
+			val, has = t.vals[v]
+			if !has {
+				if !isParamOrConst(v) {
+					return "", false
+				}
+				val = t.val(v)
+			}
+		}
+		T := ve.ptypes[name]
+		if T == nil {
+			continue
+		}
+		env.vars[name] = SVal{S: t.termOfOpt(val), T: T, Sort: t.sortOf(T), Tgt: val.P}
+	}
+	// no field on the path may be written by the loop
+	var walk func(x *Expr) bool
+	walk = func(x *Expr) bool {
+		if x.Op == "sel" {
+			if !walk(x.Args[0]) {
+				return false
+			}
+			bt := t.staticType(x.Args[0], ve.ptypes)
+			if bt == nil {
+				return false
+			}
+			bt = t.resolve(bt)
+			if p, ok := bt.Underlying().(*types.Pointer); ok {
+				bt = t.resolve(p.Elem())
+			}
+			st, ok := bt.Underlying().(*types.Struct)
+			if !ok {
+				return false
+			}
+			path, _ := findField(st, x.Name)
+			if len(path) != 1 {
+				return false
+			}
+			c, _ := t.fieldComp(bt, "", path[0])
+			return !l.writes[c]
+		}
+		return x.Op == "id"
+	}
+	if !walk(ve.e) {
+		return "", false
+	}
+	ok := true
+	var term string
+	func() {
+		defer func() {
+			if r := recover(); r != nil {
+				if _, isAbort := r.(transAbort); isAbort {
+					t.failed = nil
+					ok = false
+					return
+				}
+				panic(r)
+			}
+		}()
+		term = env.eval(ve.e).S
+	}()
+	return term, ok && term != ""
+}
+
+func exprMentions(x *Expr, name string) bool {
+	if x == nil {
+		return false
+	}
+	if x.Op == "id" && x.Name == name {
+		return true
+	}
+	for _, a := range x.Args {
+		if exprMentions(a, name) {
+			return true
+		}
+	}
+	return false
+}
+
+// reloadTerm: v is `*(&X.f)` with X loop-invariant and f not written by the loop.
+func (t *FnTrans) reloadTerm(v ssa.Value, l *loopInfo) (string, bool) {
+	u, ok := v.(*ssa.UnOp)
+	if !ok {
+		return "", false
+	}
+	fa, ok := u.X.(*ssa.FieldAddr)
+	if !ok {
+		return "", false
+	}
+	comp, _, ok := t.staticFieldComp(fa)
+	if !ok || l.writes[comp] {
+		return "", false
+	}
+	if in, isIn := fa.X.(ssa.Instruction); isIn && in.Block() != nil && l.body[in.Block()] {
+		return "", false
+	}
+	xv, has := t.vals[fa.X]
+	if !has {
+		if !isParamOrConst(fa.X) {
+			return "", false
+		}
+		xv = t.val(fa.X)
+	}
+	xt := t.termOfOpt(xv)
+	if xt == "" {
+		return "", false
+	}
+	return app("select", t.get(comp), xt), true
+}
+
+func isParamOrConst(v ssa.Value) bool {
+	switch v.(type) {
+	case *ssa.Parameter, *ssa.Const, *ssa.FreeVar:
+		return true
+	}
+	return false
 }
 
 func originOf(T types.Type) types.Type {
